@@ -1,0 +1,28 @@
+//go:build verif
+
+package crypto
+
+import (
+	"crypto/rc4"
+	"net"
+)
+
+// VerifNewConn wraps c in a Conn whose two directions are keyed with the
+// given RC4 keys (no key-stream bytes discarded).
+func VerifNewConn(c net.Conn, encKey, decKey []byte) (*Conn, error) {
+	enc, err := rc4.NewCipher(encKey)
+	if err != nil {
+		return nil, err
+	}
+	dec, err := rc4.NewCipher(decKey)
+	if err != nil {
+		return nil, err
+	}
+	return &Conn{conn: c, enc: enc, dec: dec}, nil
+}
+
+// VerifIsConn reports whether c is an encrypted connection.
+func VerifIsConn(c net.Conn) bool {
+	_, ok := c.(*Conn)
+	return ok
+}
